@@ -112,6 +112,52 @@ func c10Compact(n int) []byte {
 
 func c10Bytes(b []byte) []byte { return append(c10Compact(len(b)), b...) }
 
+func c10LE(v uint64, k int) []byte {
+	out := make([]byte, k)
+	for i := 0; i < k; i++ {
+		out[i] = byte(v >> (8 * uint(i)))
+	}
+	return out
+}
+
+// c10Weird encodes the length n in a way the SCALE specification does not allow for a Vec length, or
+// that pkg/scale's decodeUint treats specially: a mode wider than needed (non-canonical), the
+// big-integer mode with 4, 5 or 8 payload bytes holding n, or a huge canonical value in the
+// big-integer mode.  forCount: the prefix is the element count of the outer Vec (then a canonical
+// four-byte payload 2^30.. is allowed too: decodeSlice only loops until the input ends; for a byte
+// vector decodeBytes would allocate the declared 1..4 GiB, so it is never generated there).
+func c10Weird(r *vu.RNG, n int, forCount bool) ([]byte, string) {
+	for {
+		switch r.Intn(9) {
+		case 0:
+			if n < 64 {
+				v := uint16(n<<2) | 1
+				return []byte{byte(v), byte(v >> 8)}, "len-noncanonical"
+			}
+		case 1:
+			if n < 1<<14 {
+				return c10LE(uint64(n<<2)|2, 4), "len-noncanonical"
+			}
+		case 2:
+			return append([]byte{0x03}, c10LE(uint64(n), 4)...), "len-noncanonical" // 4-byte payload below 2^30
+		case 3:
+			return append([]byte{0x07}, c10LE(uint64(n), 5)...), "len-big5" // 5-byte payload, not canonical
+		case 4:
+			return append([]byte{0x13}, c10LE(uint64(n), 8)...), "len-big8-small" // 8-byte payload, top byte zero
+		case 5:
+			return append([]byte{0x13}, c10LE(uint64(n)|uint64(1+r.Intn(255))<<56, 8)...), "len-big8" // canonical, >= 2^56
+		case 6:
+			return append([]byte{0x07}, c10LE(uint64(n)|1<<32, 5)...), "len-big5" // canonical 2^32 + n
+		case 7:
+			return append([]byte{byte((9-4)<<2 | 3)}, c10LE(uint64(n), 9)...), "len-big9"
+		case 8:
+			if forCount {
+				return append([]byte{0x03}, c10LE(uint64(n)|1<<30, 4)...), "count-big4" // canonical 2^30 + n
+			}
+		}
+	}
+}
+
 var c10Alphabet = []byte{0x00, 0x01, 0x10, 0x1f, 0xf0, 0xff}
 var c10ValueLens = []int{0, 0, 1, 2, 31, 32, 33, 70}
 
@@ -125,31 +171,63 @@ func c10Count(r *vu.RNG) int {
 		return 62 + r.Intn(5) // around the one-byte/two-byte compact boundary of the index
 	case 3:
 		return 100 + r.Intn(120)
+	case 4:
+		if r.Chance(1, 2) {
+			return 250 + r.Intn(60) // index crossing 255/256 (a one-byte index counter would wrap)
+		}
+		return 2 + r.Intn(20)
 	default:
 		return 2 + r.Intn(20)
 	}
 }
 
-func c10Entries(r *vu.RNG) []byte {
+// weird >= 0: the weird-th length prefix of the input (0 = the count) is encoded by c10Weird
+func c10Entries(r *vu.RNG, weird int) []byte {
 	n := c10Count(r)
-	out := c10Compact(n)
+	if weird >= 0 && n > 8 {
+		n = 1 + r.Intn(8)
+	}
+	pos := 0
+	enc := func(l int) []byte {
+		defer func() { pos++ }()
+		if pos == weird {
+			w, _ := c10Weird(r, l, pos == 0)
+			return w
+		}
+		return c10Compact(l)
+	}
+	out := enc(n)
 	for i := 0; i < n; i++ {
 		kl := r.Intn(4)
 		k := make([]byte, kl)
 		for j := range k {
 			k[j] = c10Alphabet[r.Intn(len(c10Alphabet))]
 		}
-		out = append(out, c10Bytes(k)...)
-		out = append(out, c10Bytes(r.Bytes(c10ValueLens[r.Intn(len(c10ValueLens))]))...)
+		out = append(append(out, enc(len(k))...), k...)
+		v := r.Bytes(c10ValueLens[r.Intn(len(c10ValueLens))])
+		out = append(append(out, enc(len(v))...), v...)
 	}
 	return out
 }
 
-func c10Values(r *vu.RNG) []byte {
+func c10Values(r *vu.RNG, weird int) []byte {
 	n := c10Count(r)
-	out := c10Compact(n)
+	if weird >= 0 && n > 8 {
+		n = 1 + r.Intn(8)
+	}
+	pos := 0
+	enc := func(l int) []byte {
+		defer func() { pos++ }()
+		if pos == weird {
+			w, _ := c10Weird(r, l, pos == 0)
+			return w
+		}
+		return c10Compact(l)
+	}
+	out := enc(n)
 	for i := 0; i < n; i++ {
-		out = append(out, c10Bytes(r.Bytes(c10ValueLens[r.Intn(len(c10ValueLens))]))...)
+		v := r.Bytes(c10ValueLens[r.Intn(len(c10ValueLens))])
+		out = append(append(out, enc(len(v))...), v...)
 	}
 	return out
 }
@@ -162,6 +240,12 @@ func c10Version(r *vu.RNG) uint32 {
 		return uint32(3 + r.Intn(253))
 	case 2:
 		return 255
+	case 3:
+		if r.Chance(1, 3) {
+			// outside the property's range 0..255: only the low byte is looked at (uint8(version))
+			return uint32(r.Intn(4))<<8 | uint32(r.Intn(3))
+		}
+		return uint32(r.Intn(2))
 	default:
 		return uint32(r.Intn(2))
 	}
@@ -186,21 +270,34 @@ func c10Mutate(r *vu.RNG, d []byte) []byte {
 }
 
 func c10Generate(r *vu.RNG, n int, emit func(string)) {
+	// verifutil.NewRNG(seed) starts at seed*golden+c and U64 advances by golden, so the streams of seed s and
+	// s+1 are the same stream shifted by one draw; re-seeding from a mixed output decorrelates the seeds
+	r = r.Fork()
 	for _, s := range []string{
 		"root 0 00", "root 1 00", "root 2 00", "root ff 00", "root 0 -", "ord 0 00", "ord 1 -", "root1 00", "ord1 00",
 		"root 0 0804010402aa04010402bb", "root 0 0404010402", "ord 0 0804aa", "ord 1 0c04aa00",
+		// length prefixes pkg/scale must reject: non-canonical count / key length / value length; 5-, 8-
+		// and 9-byte big-integer payloads; a canonical 2^30+1 count; a value declaring 2^56 bytes
+		"root 0 050004010402", "root 0 040500010402", "root 0 0404010500020000", "ord 0 0500040a",
+		"root 0 07010000000004010402", "root 0 0404011301000000000000000102", "ord 0 04170100000000000000000a",
+		"root 0 030100004004010402", "ord 0 0301000040040a", "ord 0 0413000000000000000111",
+		"root 100 0404010402", "root 101 0404010402", "root 102 0404010402",
 	} {
 		emit(s)
 	}
 	for i := 0; i < n; i++ {
 		ord := r.Chance(1, 2)
+		weird := -1
+		if r.Chance(1, 7) {
+			weird = r.Intn(6) // one of the first length prefixes in a non-standard encoding
+		}
 		var d []byte
 		if ord {
-			d = c10Values(r)
+			d = c10Values(r, weird)
 		} else {
-			d = c10Entries(r)
+			d = c10Entries(r, weird)
 		}
-		if r.Chance(1, 5) {
+		if weird < 0 && r.Chance(1, 5) {
 			d = c10Mutate(r, d)
 		}
 		name := "root"
